@@ -28,14 +28,16 @@ def offending_static():
         return [dict(error=str(e))]
 
 
+def mkfile(name, txt):
+    return "MKFILE %s %s\n" % (name, txt.encode("latin-1", "replace").hex() or "-")
+
+
 def main():
     ck = Check("C20", "proof")
     b = build_repo()
     pr = ck.proofs()
     tmp = tempfile.mkdtemp(prefix="qsx_c20_", dir="/var/tmp")
     try:
-        for n, t in BAD_FILES.items():
-            open(os.path.join(tmp, n), "w").write(t)
         lps = family_stream(ck.rng, 120 if ck.thorough() else 30)
         cases = []
         meta = {}
@@ -47,7 +49,7 @@ def main():
                 n, m = len(lp["cols"]), len(lp["rows"])
                 extra = ["INFEASARR", "INFEASARR NULL", "CHG coef %d 0 1" % (m + 3), "CHG bound %d U 1" % (n + 5), "CHG sense 0 Q",
                          "LOADBASIS %s %s" % ("1" * n or "-", "1" * m or "-"), "WRITEPROB /nonexistent_dir/x.lp LP",
-                         "WRITEPROB %s LP" % os.path.join(tmp, "w_%s.lp" % cid), "WRITEPROB %s MPS" % os.path.join(tmp, "w_%s.mps" % cid),
+                         "WRITEPROB w_%s.lp LP" % cid, "WRITEPROB w_%s.mps MPS" % cid,
                          "GETBASIS", "ACCESS", "BOPT %s %s" % ("0" * n or "-", "1" * m or "-")]
                 ck.rng.shuffle(extra)
                 scr += "\n".join(extra[:5]) + "\n"
@@ -56,7 +58,7 @@ def main():
         for n in BAD_FILES:
             for ty in ("LP", "MPS"):
                 cid = "f_%s_%s" % (n, ty)
-                cases.append((cid, "CASE %s\nREADPROB %s %s\nREADPROB %s %s\n" % (cid, os.path.join(tmp, n), ty, os.path.join(tmp, "missing_" + n), ty)))
+                cases.append((cid, "CASE %s\n%sREADPROB in_%s %s\nREADPROB missing_%s %s\n" % (cid, mkfile("in_" + cid, BAD_FILES[n]), cid, ty, cid, ty)))
                 meta[cid] = "files"
         # run in a few chunks, each with its own capture prefix
         nchunks = 8
@@ -66,7 +68,7 @@ def main():
         def run_chunk(k):
             ch = cases[k::nchunks]
             pre = os.path.join(tmp, "cap%d" % k)
-            rc, out, err = run_harness("h_solve", "".join(s for _, s in ch) + "CASE end\n", timeout=1200, env={"QSX_CAPTURE": pre})
+            rc, out, err = run_harness("h_solve", "".join(s for _, s in ch) + "CASE end\n", timeout=1200, env={"QSX_CAPTURE": pre, "QSX_SCRATCH": tmp})
             c1 = open(pre + ".1", "rb").read() if os.path.exists(pre + ".1") else b""
             c2 = open(pre + ".2", "rb").read() if os.path.exists(pre + ".2") else b""
             return ch, rc, out, c1, c2
